@@ -52,10 +52,10 @@ Inductive proto := IPoE | PPPoE.
 Record cfg := {
   c_proto : proto;
   c_ordered : bool;   (* true: checkpoint writes and deletes of one session take effect in issue order
-                         (repaired); false: an asynchronous Put applies whenever it completes (today) *)
-  c_reserve : bool;   (* true: PPPoE installInMemoryState re-reserves addresses (repaired); IPoE always does *)
+                         (/repo HEAD since 657fd59); false: an asynchronous Put applies whenever it completes (before the fix) *)
+  c_reserve : bool;   (* true: PPPoE installInMemoryState re-reserves addresses (HEAD since 7da5674); IPoE always does *)
   c_delretry : bool;  (* true: a checkpoint Delete that fails with a Store error is repeated until it succeeds
-                         (repaired); false: deleteSessionCheckpoint only logs the error (today) *)
+                         (/repo HEAD since f3eb7c5, OrderedWriter.DeleteEventually); false: the error is only logged (before) *)
   c_n4 : N; c_n6 : N; c_npd : N }.
 
 Definition code (f a : N) : N := 3 * a + f.
@@ -200,6 +200,8 @@ Inductive op :=
 | Poison (t : N) (always : bool)              (* fault plan: the Put with ticket t will return a Store error *)
 | CksF (i : N)                                (* checkpointSessionSync whose Store.Put returns an error *)
 | RelF (i : N)                                (* release whose checkpoint Delete returns a (transient) Store error *)
+| Flip                                        (* Registry.SetAllocDirection flips (HA: this node lost the SRG election):
+                                                 every pool rebuilds its free list; leases and reservations stay *)
 | Crash (preserved : bool) (fail : option N) (now : Z)    (* stop; new incarnation restores from the store *)
 | RelStop (i : N) (putdone : bool) (preserved : bool) (fail : option N) (now : Z).
     (* stop IN THE MIDDLE of the release of session i: the in-memory part has run (of it only the dataplane delete
@@ -360,8 +362,8 @@ Fixpoint first_of (c : cfg) (s : st) (i : N) (pd : list (N * sess)) : option N :
   end.
 
 (* release whose Delete fails.  The Delete has waited for the write that was at the Store (it takes effect), the
-   queued Puts issued before it are skipped as obsolete, then the Store returns an error.  Today the error is only
-   logged: the image stays and the session is nevertheless released.  Repaired: the Delete is repeated and succeeds. *)
+   queued Puts issued before it are skipped as obsolete, then the Store returns an error.  Before f3eb7c5 the error was only
+   logged: the image stays and the session is nevertheless released.  HEAD: the Delete is repeated and succeeds. *)
 Definition do_relf (c : cfg) (s : st) (i : N) : st * out :=
   match aget i (live s) with
   | None => (s, OSkip)
@@ -477,6 +479,7 @@ Definition step (c : cfg) (s : st) (o : op) : option (st * out) :=
   | Poison t al => Some (do_poison s t al)
   | CksF i => Some (do_cksf c s i)
   | RelF i => Some (do_relf c s i)
+  | Flip => Some (s, ODone false)
   | Crash p f now => Some (do_crash c s p f now)
   | RelStop i pd p f now => Some (do_relstop c s i pd p f now)
   end.
@@ -494,5 +497,6 @@ Definition free_of (c : cfg) (s : st) (f : N) : list N :=
 
 Definition repaired (p : proto) (n4 n6 npd : N) : cfg :=
   {| c_proto := p; c_ordered := true; c_reserve := true; c_delretry := true; c_n4 := n4; c_n6 := n6; c_npd := npd |}.
-Definition today (p : proto) (n4 n6 npd : N) : cfg :=
+(* the behaviour before the three fixes (657fd59, 7da5674, f3eb7c5); only used by the _refuted witnesses *)
+Definition before_fixes (p : proto) (n4 n6 npd : N) : cfg :=
   {| c_proto := p; c_ordered := false; c_reserve := false; c_delretry := false; c_n4 := n4; c_n6 := n6; c_npd := npd |}.
